@@ -35,7 +35,7 @@ def _cell(v):
     if v is None:
         return None
     if isinstance(v, (bool, np.bool_)):
-        return bool(v)
+        return "True" if v else "False"      # a flag is not the number 1 (Python would call them equal)
     if isinstance(v, (int, np.integer)):
         return int(v)
     if isinstance(v, (float, np.floating)):
